@@ -41,14 +41,19 @@ class Mismatch(Exception):
     """the kernel no longer has the shape of its reviewed template (not a verdict on its accuracy)"""
 
 
-def lane_term(mod, fname):
+def lane_term(mod, fname, arg_sign=None):
+    """arg_sign 0 / 1: the sign bit of every argument lane is that constant (the analysis of one half line)"""
     f = mod.functions.get(fname)
     if f is None:
         raise Mismatch('wrapper %s missing' % fname)
     args = []
     for i, a in enumerate(f['args']):
         ty = parse_type(a['ty'])
-        args.append(T.cat(*[T.atom_bv('a%d' % i, l, ty.elem.bits) for l in range(ty.n)]))
+        b = ty.elem.bits
+        if arg_sign is None:
+            args.append(T.cat(*[T.atom_bv('a%d' % i, l, b) for l in range(ty.n)]))
+        else:
+            args.append(T.cat(*[T.cat(T.slice_(T.atom_bv('a%d' % i, l, b), 0, b - 1), T.const(1, arg_sign)) for l in range(ty.n)]))
     ev = lanes.Eval(mod, f, args)
     ev.run()
     w = parse_type(f['ret']).elem.bits
@@ -552,14 +557,18 @@ def applicable(fn, bits, cfgname):
     return True
 
 
-GROUPS = ('explog', 'trig', 'inv', 'cont', 'dir')
+GROUPS = ('explog', 'trig', 'inv', 'cont', 'dir', 'erfc', 'paths')
 # small-argument odd kernels compared with their Taylor series: function -> precisions that have such a kernel
 DIRF = {'sinh': (32, 64), 'tanh': (32, 64), 'asinh': (32,), 'erf': (32,)}
 BINADES = [True]      # the binade-boundary clause (every binade of the normal range) -- quick tier: first configuration only
 # tier continuity: function -> the property's bound in ulp (float column / double column; None = no frozen bound known here)
 CONT = {'exp': (4.5, 4.5), 'exp2': (4.5, 4.5), 'exp10': (4.5, 4.5), 'expm1': (4.5, 4.5), 'log': (4.5, 4.5), 'log2': (4.5, 4.5), 'log10': (4.5, 4.5), 'log1p': (4.5, 4.5),
         'sin': (4.5, 4.5), 'cos': (4.5, 4.5), 'tan': (4.5, 4.5), 'asin': (4.5, 4.5), 'acos': (4.5, 4.5), 'atan': (4.5, 4.5), 'sinh': (4.5, 4.5), 'cosh': (4.5, 4.5), 'tanh': (4.5, 4.5),
-        'asinh': (4.5, 4.5), 'acosh': (4.5, 4.5), 'atanh': (4.5, 4.5), 'cbrt': (4.5, 4.5), 'erf': (4.5, None), 'erfc': (128, None)}
+        'asinh': (4.5, 4.5), 'acosh': (4.5, 4.5), 'atanh': (4.5, 4.5), 'cbrt': (4.5, 4.5), 'erf': (4.5, 128), 'erfc': (128, 65536), 'lgamma': (8, None)}
+ABS_FLOOR = {'lgamma': Fr(1)}            # lgamma: 8 ulp of max(|result|, 1)
+# erf / erfc in double: C11 leaves the bound to this table; 128 ulp resp. 2^16 ulp are what the documented kernels
+# (erfc2 on [0.65, 2.2], erfc3 on [2.2, 6]) deliver: established method error 68 ulp resp. 4.0e4 ulp at x = 2.2 (DESIGN 8.6)
+ERFC = {'erf': (Fr(6), Fr(6)), 'erfc': (Fr(73, 8), Fr(53, 2))}          # analysed up to this argument (float, double): beyond, erfc is below 4*MIN / erf is 1
 
 
 def analyse(job):
@@ -581,7 +590,7 @@ def analyse(job):
         key = 'continuity|%s|%s|%s' % (fn, tn, cfgname)
         thr = Fr(bound) + ROUNDING_ALLOWANCE_ULP
         try:
-            cr = c10cont.analyse_cont(mod, 'm_%s_%s' % (fn, tn), bits, thr, binades=BINADES[0])
+            cr = c10cont.analyse_cont(mod, 'm_%s_%s' % (fn, tn), bits, thr, binades=BINADES[0], abs_floor=ABS_FLOOR.get(fn))
         except (Mismatch, NotReal) as e:
             out['res'].append((key, 'skip', {'why': str(e)[:200]}))
             continue
@@ -593,6 +602,57 @@ def analyse(job):
                    'ulp': max([b['jump_ulp'] for b in cr['boundaries']] or [0.0]), 'threshold_jump_ulp': float(2 * thr), 'kernel_rel_err': 0.0, 'const_rel_err': 0.0, 'n_boundaries': len(cr['boundaries']), 'binade_boundaries': cr.get('binade_boundaries', 0)}
         if bad:
             summary['bad_boundary'] = bad[0]
+            out['res'].append((key, 'bad', summary))
+        else:
+            out['res'].append((key, 'ok', summary))
+    from . import c10erfc
+    for fn in (sorted(ERFC) if group == 'erfc' else ()):
+        bound = CONT[fn][0 if bits == 32 else 1]
+        key = 'kernel|%s-exp-tiers|%s|%s' % (fn, tn, cfgname)
+        thr = Fr(bound) + ROUNDING_ALLOWANCE_ULP
+        try:
+            er = c10erfc.analyse_erfc(mod, 'm_%s_%s' % (fn, tn), fn, bits, thr, ERFC[fn][0 if bits == 32 else 1])
+        except (Mismatch, NotReal) as e:
+            out['res'].append((key, 'mismatch', {'why': str(e)[:300]}))
+            continue
+        except (ValueError, KeyError, IndexError, ZeroDivisionError, RecursionError, TypeError, AttributeError) as e:
+            out['res'].append((key, 'mismatch', {'why': 'analysis error %r' % (e,)}))
+            continue
+        pcs = er['pieces']
+        mism = [q for q in pcs if q['verdict'] == 'mismatch']
+        bad = [q for q in pcs if q['verdict'] == 'bad']
+        okc = [q for q in pcs if q['verdict'] == 'ok']
+        summary = {'pieces': len(pcs), 'paths': er['paths'], 'ulp': max([q['ulp'] for q in okc] or [0.0]), 'bound_ulp': float(bound), 'kernel_rel_err': 0.0, 'const_rel_err': 0.0,
+                   'worst_pieces': sorted([(round(q['ulp'], 3), q['piece'], q['path']) for q in okc], reverse=True)[:4], 'skipped': er['skipped'][:4]}
+        if bad:
+            # one report per maximal run of adjacent bad pieces on the same path
+            b0 = max(bad, key=lambda q: q['ulp'])
+            summary.update(bad_piece=b0, bad_range=(min(q['piece'][0] for q in bad), max(q['piece'][1] for q in bad)), n_bad=len(bad), ulp=b0['ulp'])
+            out['res'].append((key, 'bad', summary))
+        elif mism:
+            out['res'].append((key, 'mismatch', {'why': 'piece %s path %s: %s' % (mism[0]['piece'], mism[0]['path'], mism[0].get('why'))}))
+        elif len(okc) < 10:
+            out['res'].append((key, 'mismatch', {'why': 'only %d pieces analysed' % len(okc)}))
+        else:
+            out['res'].append((key, 'ok', summary))
+    for fn in (sorted(CONT) if group == 'paths' else ()):
+        bound = CONT[fn][0 if bits == 32 else 1]
+        if bound is None:
+            continue
+        key = 'paths|%s|%s|%s' % (fn, tn, cfgname)
+        thr = Fr(bound) + ROUNDING_ALLOWANCE_ULP
+        try:
+            pr = c10cont.analyse_paths(mod, 'm_%s_%s' % (fn, tn), bits, thr, abs_floor=ABS_FLOOR.get(fn))
+        except Exception as e:          # a path the evaluator cannot follow: no verdict for this function
+            out['res'].append((key, 'skip', {'why': 'not analysed: %s %s' % (type(e).__name__, str(e)[:160])}))
+            continue
+        if pr['paths'] < 2:
+            continue                    # straight-line function: nothing depends on the other lanes
+        bad = [q for q in pr['cells'] if not q['ok']]
+        summary = {'paths': pr['paths'], 'cells': [(q['x'], q['paths'], round(q['spread_ulp'], 3)) for q in pr['cells']], 'ulp': max([q['spread_ulp'] for q in pr['cells']] or [0.0]), 'n_cells': len(pr['cells']),
+                   'threshold_spread_ulp': float(2 * thr), 'kernel_rel_err': 0.0, 'const_rel_err': 0.0, 'dropped_paths': pr['dropped_paths'], 'skipped': pr['skipped'][:4]}
+        if bad:
+            summary['bad_cell'] = max(bad, key=lambda q: q['spread_ulp'])
             out['res'].append((key, 'bad', summary))
         else:
             out['res'].append((key, 'ok', summary))
@@ -717,6 +777,7 @@ def run_for(pid, bits, a):
     cfgs = THOROUGH if a.tier == 'thorough' else CONFIGS
     nob = 0
     ncont = 0
+    npaths = 0
     not_analysed = []
     rows = []
     with ProcessPoolExecutor(max_workers=min(14, len(cfgs) * len(GROUPS))) as ex:
@@ -746,6 +807,21 @@ def run_for(pid, bits, a):
                     continue
                 nob += 1
                 rows.append(dict(d, obligation=key))
+                if key.startswith('paths|'):
+                    npaths += d.get('n_cells', 0)
+                    if st == 'bad':
+                        b = d['bad_cell']
+                        r.violation(key, 'for a lane holding x = %s the control paths %s and %s (which one runs depends on the OTHER lanes of the batch) give values %.17g and %.17g (read as real functions): %.4g ulp apart, more than twice the bound %s + %s ulp, so on one of them the lane is further than the bound from the function' % (
+                            b['x_exact'] if len(b['x_exact']) < 40 else b['x'], b['path_a'] or '(fall-through)', b['path_b'] or '(fall-through)', b['value_a'], b['value_b'], b['spread_ulp'], d['threshold_spread_ulp'] / 2 - float(ROUNDING_ALLOWANCE_ULP), float(ROUNDING_ALLOWANCE_ULP)), dict(d, obligation=key))
+                    continue
+                if '-exp-tiers|' in key:
+                    if st == 'bad':
+                        b = d['bad_piece']
+                        r.violation(key, 'on the control path %s, for |x| in [%.6g, %.6g] (worst piece [%.6g, %.6g]) %s: %s' % (
+                            b['path'] or '(fall-through)', d['bad_range'][0], d['bad_range'][1], b['piece'][0], b['piece'][1],
+                            b.get('why') or ('the tier %s + exp(-x^2) R(x) has R up to %.4g ulp (of the result) from exp(x^2) erfc(x)' % (('%g' % b['constant']) if b.get('constant') else '0', b['ulp'])),
+                            'above the bound %s ulp frozen for this function plus %s ulp rounding allowance' % (d['bound_ulp'], float(ROUNDING_ALLOWANCE_ULP))), dict(d, obligation=key))
+                    continue
                 if st == 'bad' and 'bad_case' in d:
                     b = d['bad_case']
                     r.violation(key, 'on the control path %s (|x| in [%.6g, %s]) the reduced argument ranges over %s and the kernel there is %s ulp from the mathematical function (approximation %s, reduction constants %s, unfused k*c products %s ulp)%s: above the property bound %s ulp plus %s ulp rounding allowance' % (
@@ -758,7 +834,9 @@ def run_for(pid, bits, a):
                     cw = (' -- of which %.3g ulp because the separately rounded product k*%.9g of the argument reduction is not exact (Cody-Waite needs a short leading constant when the multiply is not fused)' % (d['cody_waite_ulp'], d['cody_waite_site'])) if d.get('cody_waite_ulp', 0) > 1 else ''
                     r.violation(key, 'method error of the kernel is %.3g ulp on its reduced domain (approximation %.3g, reduction constants %.3g relative)%s: above the property bound %s ulp plus %s ulp rounding allowance' % (
                         d['ulp'], d['kernel_rel_err'], d['const_rel_err'], cw, float(BOUND_ULP), float(ROUNDING_ALLOWANCE_ULP)), dict(d, obligation=key))
-    want = sum(1 for c in cfgs for f in FUNCS if applicable(f[0], bits, c)) + (len(TRIG) + len(INV) + sum(1 for f_ in DIRF if bits in DIRF[f_])) * len(cfgs)
+    want = sum(1 for c in cfgs for f in FUNCS if applicable(f[0], bits, c)) + (len(TRIG) + len(INV) + len(ERFC) + 5 + sum(1 for f_ in DIRF if bits in DIRF[f_])) * len(cfgs)
+    if npaths < 20 * len(cfgs) and not r.broken:
+        r.broke('path-agreement clause compared only %d cells' % npaths)
     if ncont < 30 * len(cfgs) and not r.broken:
         r.broke('tier-continuity clause evaluated only %d switch points' % ncont)
     if nob < want and not r.broken:
